@@ -341,6 +341,10 @@ def check(fx, rep, tier):
         check_usage_oracle(rep, usages, table)
     check_width_table(mm, rep)
     check_sized_usage_widths(fx, rep)
+    # a sized word pushed down to a span whose size it does not have is a contradiction accepted silently (shared with C12)
+    from .c12 import check_span_judgement_width
+
+    check_span_judgement_width(fx, rep, "R15.3")
     # R15.3 = absorption audit under this property's id
     class Proxy:
         def __init__(self, rep):
